@@ -82,12 +82,14 @@ type c05Case struct {
 	List            int       `json:"list_size"` // 0 absent, 1 [h1], 2 [h1,h2], 3 [h1,h2,h3]
 	Last            int       `json:"last_switch"`
 	Async           bool      `json:"async_config"`
+	// W: the configured rpl_semi_sync_master_wait_for_slave_count (0: the default, 1)
+	W int `json:"configured_wait_count,omitempty"`
 	Ticks           []c05Tick `json:"ticks"`
 }
 
 func (c c05Case) String() string {
-	return fmt.Sprintf("failover=%v resetup=%v delay=%ds maint=%d pending=%d masterUp=%v masterHung=%v replicas=%v list=%d last=%d async=%v ticks=%+v",
-		c.Failover, c.Resetup, c.Delay, c.Maint, c.Pending, c.MasterUp, c.MasterHung, c.Reps, c.List, c.Last, c.Async, c.Ticks)
+	return fmt.Sprintf("failover=%v resetup=%v delay=%ds maint=%d pending=%d masterUp=%v masterHung=%v replicas=%v list=%d last=%d async=%v wait_count=%d ticks=%+v",
+		c.Failover, c.Resetup, c.Delay, c.Maint, c.Pending, c.MasterUp, c.MasterHung, c.Reps, c.List, c.Last, c.Async, max(c.W, 1), c.Ticks)
 }
 
 var c05FirstBase, c05FirstCalls int
@@ -98,6 +100,9 @@ func c05Run(r *vt.Run, c c05Case) {
 		"failover_delay": fmt.Sprintf("%ds", c.Delay), "failover_cooldown": "3600s"}}
 	if c.Async {
 		spec.Conf["semi_sync"] = "false"
+	}
+	if c.W > 0 {
+		spec.Conf["rpl_semi_sync_master_wait_for_slave_count"] = fmt.Sprint(c.W)
 	}
 	Bubble(r.T, spec, func(h *H) {
 		h.BuildConverged()
@@ -330,7 +335,7 @@ func c05Run(r *vt.Run, c c05Case) {
 					fail("5-quorum", "no alive active replica")
 				}
 			} else {
-				q := max(len(list)-min(len(list)/2, 1), 1)
+				q := max(len(list)-min(len(list)/2, max(c.W, 1)), 1)
 				if alive < q {
 					fail("5-quorum", fmt.Sprintf("%d alive active replicas, quorum %d", alive, q))
 				}
@@ -438,6 +443,19 @@ func checkC05(r *vt.Run) {
 				for list := 0; list <= 3; list++ {
 					for _, mup := range []bool{true, false} {
 						run(c05Case{Failover: true, Resetup: true, Delay: 0, MasterUp: mup, Reps: [2]int{r2, r3}, List: list, Async: true, Ticks: []c05Tick{{0, health, false}}})
+					}
+				}
+			}
+		}
+	}
+	// a configured semi-sync count above what the list allows: the quorum is computed from the
+	// required count (capped at half the list), not from the configured one
+	for health := hOK; health <= hCrash; health++ {
+		for r2 := rRunning; r2 <= rDead; r2++ {
+			for r3 := rRunning; r3 <= rDead; r3++ {
+				for list := 0; list <= 3; list++ {
+					for _, mup := range []bool{true, false} {
+						run(c05Case{Failover: true, Resetup: true, Delay: 0, MasterUp: mup, Reps: [2]int{r2, r3}, List: list, W: 2, Ticks: []c05Tick{{0, health, false}}})
 					}
 				}
 			}
